@@ -53,7 +53,12 @@ class TlcResult(object):
         return sorted(set(zero))
 
     def tail(self, n=40):
-        return "\n".join(self.out.splitlines()[-n:])
+        lines = self.out.splitlines()
+        errs = []
+        for i, l in enumerate(lines):
+            if l.startswith("Error:") and len(errs) < 12:
+                errs += lines[i:i + 4]
+        return "\n".join(errs + ["..."] + lines[-n:])
 
 
 def scratch_dir(prefix="verif_"):
